@@ -345,8 +345,19 @@ def shard_limits(ctx, k, payload):
                         if kk.startswith('1099-int:0.'):
                             d[f'1099-int:{c}.' + kk.split('.', 1)[1]] = v
                     d[f'1099-int:{c}.box_6'] = '0'
-                    d[f'1099-int:{c}.box_1'] = '900.00'
+                    d[f'1099-int:{c}.box_3'] = '0'
+                    d[f'1099-int:{c}.box_1'] = amounts[c]
                 return d
+            # per-payer amounts: sometimes the first 14 rows alone stay under the Schedule B threshold
+            style = data.draw(st.sampled_from(['big', 'small_then_big', 'mixed']))
+            amounts = []
+            for c in range(rows + 1):
+                if style == 'big':
+                    amounts.append('900.00')
+                elif style == 'small_then_big':
+                    amounts.append('100.00' if c < rows else '450.00')
+                else:
+                    amounts.append(data.draw(st.sampled_from(['50.00', '107.25', '900.00'])))
             under, over = with_n(rows), with_n(rows + 1)
         if over is None:
             ctx.count('limits:recipe_not_applicable')
